@@ -425,6 +425,12 @@ def run(tier):
     rnd = random.Random(common.seed())
     bd = common.build("plain")
     wd = common.workdir("c12")
+    # R1: the copy path of zck_close against an adversarial kernel (IOFault.tla); the two seeded variants must fail
+    for v, expect in (("code", True), ("resend", False), ("ignore2", False)):
+        r = common.tlc("IOFault", "MC_IOFault_%s.cfg" % v, workers=4, timeout=300)
+        if r.ok != expect:
+            raise Broken("IOFault/%s: expected %s, got %s" % (v, "no violation" if expect else "the documented counterexample", r.violation))
+        ck.add_tlc("IOFault/" + v + (" (CopyOk, NoInvent, Terminates hold)" if expect else " (counterexample exhibited, as documented)"), r, "N=4 bytes, blocks of at most 2, every lseek/read/write outcome")
     sb = {}
     tw = []; ow = []; tr = []; orr = []; td = []; od = []
     nw = writer_family(ck, rnd, tier, wd, tw, ow, sb)
